@@ -77,6 +77,15 @@ func ValidateAggregateAndProof(ctx context.Context, signedAgg *phase0.SignedAggr
 
 	ch := aggVal.Chain()
 
+	// [REJECT] The aggregate attestation's target block is an ancestor of the block named in the LMD vote --
+	// i.e. get_ancestor(store, aggregate.data.beacon_block_root, compute_start_slot_at_epoch(aggregate.data.target.epoch))
+	//        == aggregate.data.target.root
+	if unknown, inSubtree := ch.InSubtree(att.Data.Target.Root, att.Data.BeaconBlockRoot); unknown {
+		return nil, GossipValidatorResult{IGNORE, errors.New("unknown block and/or target, cannot check if in subtree")}
+	} else if !inSubtree {
+		return nil, GossipValidatorResult{REJECT, errors.New("block not in subtree of target")}
+	}
+
 	// [REJECT] The current finalized_checkpoint is an ancestor of the block defined
 	// by aggregate.data.beacon_block_root --
 	// i.e. get_ancestor(store, attestation.data.beacon_block_root, compute_start_slot_at_epoch(store.finalized_checkpoint.epoch))
